@@ -24,7 +24,8 @@ structure Closed (P : Session → Prop) : Prop where
     P (s.alloc.1.encode enc).1
   encodeScratch : ∀ {ε : Type} s (enc : Nat → (Nat → Nat → Bytes) → Except ε (Nat × Bytes)), EncOk enc → P s →
     P (s.encode enc).1
-  enqueue : ∀ {ε : Type} s (enc : Nat → (Nat → Nat → Bytes) → Except ε (Nat × Bytes)) off len isPub s3, EncOk enc → P s →
+  enqueue : ∀ {ε : Type} s (enc : Nat → (Nat → Nat → Bytes) → Except ε (Nat × Bytes)) off len isPub s3 typ, EncOk enc →
+    EncTyp enc typ → (isPub = true ↔ typ = MT_Publish) → P s →
     (isPub = true → s.rt.sendQuota ≠ 0) → (s.alloc.1.encode enc).2 = .ok (off, len) →
     (s.alloc.1.encode enc).1.retain s.alloc.2 off len isPub = some s3 → P s3
   clearPing : ∀ s, P s → P s.clearPing
@@ -410,7 +411,7 @@ theorem step_afterFlush (fuel : Nat) (ih : MachineInv P fuel) :
           · rename_i s3 hs3
             apply i1
             rename_i _ off len hres _ _
-            exact hc.enqueue w.sess _ _ _ false s3 (EncOk_encodeWithOffset _ _ _) h (by simp) hres hs3
+            exact hc.enqueue w.sess _ _ _ false s3 _ (EncOk_encodeWithOffset _ _ _) (EncTyp_encodeWithOffset _ _ _ (by decide)) (by decide) h (by simp) hres hs3
   | unsubPre r =>
     simp only []
     split
@@ -427,7 +428,7 @@ theorem step_afterFlush (fuel : Nat) (ih : MachineInv P fuel) :
           · rename_i s3 hs3
             apply i1
             rename_i _ off len hres _ _
-            exact hc.enqueue w.sess _ _ _ false s3 (EncOk_encodeWithOffset _ _ _) h (by simp) hres hs3
+            exact hc.enqueue w.sess _ _ _ false s3 _ (EncOk_encodeWithOffset _ _ _) (EncTyp_encodeWithOffset _ _ _ (by decide)) (by decide) h (by simp) hres hs3
   | publishPre r =>
     simp only []
     split
@@ -453,7 +454,7 @@ theorem step_afterFlush (fuel : Nat) (ih : MachineInv P fuel) :
                 · rename_i s3 hs3
                   apply i1
                   rename_i _ off len hres _ _
-                  refine hc.enqueue w.sess _ _ _ true s3 (EncOk_encodePublish _ _) h ?_ hres hs3
+                  refine hc.enqueue w.sess _ _ _ true s3 _ (EncOk_encodePublish _ _) (EncTyp_encodePublish _ _) (by decide) h ?_ hres hs3
                   intro _
                   have hq : qos ≠ 0 := by omega
                   have hcp : canPublishS w.sess.alloc.1.data w.sess.alloc.1.rt qos = true := by
